@@ -2,6 +2,7 @@
 package c17
 
 import (
+	"encoding/json"
 	"fmt"
 	"sort"
 	"strconv"
@@ -98,7 +99,7 @@ func docLess(a, b []any, reverse bool) bool {
 // writeDoc writes the tree as JSON with the members of every object in ascending or descending
 // key order.
 func writeDoc(v any, indent int, reverse bool) string {
-	if !reverse {
+	if !reverse && !hasBig(v) {
 		return oj.JSON(v, &ojg.Options{Sort: true, Indent: indent})
 	}
 	var sb strings.Builder
@@ -120,7 +121,10 @@ func writeDoc(v any, indent int, reverse bool) string {
 			for k := range tv {
 				keys = append(keys, k)
 			}
-			sort.Sort(sort.Reverse(sort.StringSlice(keys)))
+			sort.Strings(keys)
+			if reverse {
+				sort.Sort(sort.Reverse(sort.StringSlice(keys)))
+			}
 			sb.WriteByte('{')
 			for i, k := range keys {
 				if i > 0 {
@@ -151,12 +155,35 @@ func writeDoc(v any, indent int, reverse bool) string {
 			}
 			nl(depth)
 			sb.WriteByte(']')
+		case json.Number:
+			sb.WriteString(string(tv)) // the writers would quote it
 		default:
 			sb.WriteString(oj.JSON(v))
 		}
 	}
 	w(v, 0)
 	return sb.String()
+}
+
+// hasBig: does the tree hold a number kept as text (the library's writers would quote it).
+func hasBig(v any) bool {
+	switch tv := v.(type) {
+	case json.Number:
+		return true
+	case []any:
+		for _, e := range tv {
+			if hasBig(e) {
+				return true
+			}
+		}
+	case map[string]any:
+		for _, e := range tv {
+			if hasBig(e) {
+				return true
+			}
+		}
+	}
+	return false
 }
 
 // writeSEN writes the tree in SEN notation as sen.md describes it: tokens ([A-Za-z_^~.] then
@@ -223,6 +250,8 @@ func writeSEN(v any, reverse bool) string {
 			sb.WriteByte(']')
 		case string:
 			str(tv)
+		case json.Number:
+			sb.WriteString(string(tv)) // the writers would quote it
 		default:
 			sb.WriteString(oj.JSON(v))
 		}
@@ -655,6 +684,32 @@ func drawTarget(t *rapid.T) jpx.Path {
 	return p
 }
 
+var bigNumbers = []json.Number{"123456789012345678901234567890", "-98765432109876543210", "0.12345678901234567890123", "1e2000", "-1.5e-2000"}
+
+// withBigNumbers replaces some of the numeric leaves by numbers that are kept as text.
+func withBigNumbers(t *rapid.T, v any) any {
+	switch tv := v.(type) {
+	case []any:
+		for i, e := range tv {
+			tv[i] = withBigNumbers(t, e)
+		}
+	case map[string]any:
+		keys := make([]string, 0, len(tv))
+		for k := range tv {
+			keys = append(keys, k)
+		}
+		sort.Strings(keys)
+		for _, k := range keys {
+			tv[k] = withBigNumbers(t, tv[k])
+		}
+	case int64, float64:
+		if rapid.IntRange(0, 2).Draw(t, "big") == 0 {
+			return rapid.SampledFrom(bigNumbers).Draw(t, "bignum")
+		}
+	}
+	return v
+}
+
 func drawCase(t *rapid.T) Case {
 	doc := jpx.DrawData(t, 4)
 	if _, ok := doc.([]any); !ok {
@@ -662,11 +717,23 @@ func drawCase(t *rapid.T) Case {
 			doc = map[string]any{"a": doc, "b": jpx.DrawData(t, 3), "c": []any{jpx.DrawData(t, 2), jpx.DrawData(t, 2)}}
 		}
 	}
-	cs := Case{Doc: wx.Enc(doc), Indent: rapid.SampledFrom([]int{0, 0, 2}).Draw(t, "indent")}
+	cs := Case{Indent: rapid.SampledFrom([]int{0, 0, 2}).Draw(t, "indent")}
 	n := rapid.IntRange(1, 3).Draw(t, "ntargets")
+	filters := false
 	for i := 0; i < n; i++ {
-		cs.Targets = append(cs.Targets, drawTarget(t))
+		tg := drawTarget(t)
+		for _, f := range tg {
+			filters = filters || f.K == "filter"
+		}
+		cs.Targets = append(cs.Targets, tg)
 	}
+	if !filters && rapid.IntRange(0, 2).Draw(t, "bignums") == 0 {
+		// numbers that fit neither int64 nor float64 reach the handler through another callback
+		// and have to arrive as json.Number like in the parsed document (not under filter
+		// targets: how a script compares a json.Number is said nowhere)
+		doc = withBigNumbers(t, doc)
+	}
+	cs.Doc = wx.Enc(doc)
 	cs.Reverse = rapid.IntRange(0, 3).Draw(t, "reverse") == 0
 	cs.Sen = rapid.IntRange(0, 1).Draw(t, "sen") == 0
 	text := writeDoc(doc, cs.Indent, cs.Reverse)
